@@ -1,10 +1,12 @@
 CONSTANTS
   Mod <- TheMod
+  NameCodes <- TheNames
   ByteExact = TRUE
   ModIdx = 1
   PlanSet = "rt"
   Depth = 2
   MaxCompose = 6
+  XerVals = 2
 INIT Init
 NEXT Next
 INVARIANTS RoundTrip WireCanonical Export
